@@ -1,28 +1,81 @@
-"""Correspondence for the reduced Mesh3D cache machine (`Model/MeshCache3.lean`, driver op
-`model.mesh3d_history`): random histories on real `Mesh3D` objects; after each step the
-private slots `_area`, `_face_areas`, `_face_normals` (and vertices / faces) are compared
-with the model: filled/empty + scalar/tuple kind exactly, values within 1e-9."""
+"""Model correspondence (C03): operation histories on real `Mesh3D` objects vs the reduced
+Lean cache machine `Model/MeshCache3.lean` (driver op `model.mesh3d_history`).
+
+A history = a start mesh (real factory: `Face3D.mesh_grid` — scalar area + single normal
+seeded —, `Mesh3D.from_mesh2d`, `from_face_vertices`, explicit; cold or already read) and 1..8
+operations (read area / face_areas / face_normals, duplicate, move, rotate_xy, rotate about
+the z axis, reflect, scale, remove_faces_only).  After every step the private slots `_area`,
+`_face_areas`, `_face_normals` (and `_vertices`, `_faces`) of the real object are compared
+with the model state: faces, filled/empty, scalar/tuple (single/tuple) kind and lengths
+exactly, values within 1e-9 relative to the coordinate magnitude.  `AssertionError` of the real
+method <-> `{"err":"assert"}`; any other exception is a disagreement.
+
+`m.rotate(Vector3D(0, 0, ±1), a, o)` has no model op of its own; it is tied to the model's
+`rotate_xy` (±a): the same `_mesh_transform` slot transfer, vertices equal within tolerance.
+"""
 import math
+import os
 import random
 import sys
+import time
 from fractions import Fraction
 
-sys.path.insert(0, '/verif/tools/harness')
+if __name__ == '__main__':
+    sys.path.insert(0, os.path.dirname(os.path.dirname(os.path.abspath(__file__))))
 import lbg  # noqa: E402
-lbg.LEAN_DIR = '/tmp/agents/p_c03b/lean'
-lbg.scratch_dir = lambda: '/tmp/agents/p_c03b'
 
+from ladybug_geometry.geometry2d.pointvector import Point2D  # noqa: E402
+from ladybug_geometry.geometry2d.mesh import Mesh2D  # noqa: E402
 from ladybug_geometry.geometry3d.pointvector import Point3D, Vector3D  # noqa: E402
 from ladybug_geometry.geometry3d.mesh import Mesh3D  # noqa: E402
 from ladybug_geometry.geometry3d.face import Face3D  # noqa: E402
 from ladybug_geometry.geometry3d.plane import Plane  # noqa: E402
 
+PROPS = ['C03']
+MODELS = ['LbgVerif/Model/MeshCache3.lean', 'LbgVerif/Model/Dispatch_MeshCache.lean']
+REAL = ['ladybug_geometry/_mesh.py:MeshBase',
+        'ladybug_geometry/geometry3d/mesh.py:Mesh3D (slots _area _face_areas _face_normals: '
+        'readers, __copy__, _mesh_transform, _mesh_scale, remove_faces_only, '
+        '_calculate_face_areas_and_normals)',
+        'ladybug_geometry/geometry3d/face.py:Face3D.mesh_grid (as a source of seeded slots)']
+TRUSTED = [
+    'meshcache3d: the model computes in exact rationals (math.sqrt = IEEE sqrt of the exact '
+    'argument) on the doubles the real code holds; values are compared within 1e-9 relative to '
+    'the coordinate magnitude',
+    'meshcache3d: histories in which a face normal of the current mesh is ill-conditioned '
+    '(|n| <= 1e-6 * edge length squared: degenerate or folded face) are cut at that step and '
+    'counted as float ties',
+    'meshcache3d: histories whose exact vertex coordinates outgrow 240 bits (several transforms '
+    'with generic 53-bit cos/sin) are cut: the driver evaluates sqrt through a rational -> '
+    'double conversion that overflows beyond that (histogram cut_driver_range)',
+    'meshcache3d: the start state is read off the real factory result (Face3D.mesh_grid, ...); '
+    'the slots _vertex_normals, _face_centroids, bounding box, colours and the topological '
+    'slots are not part of the reduced model and not compared; remove_vertices / remove_faces '
+    '/ join_meshes of Mesh3D have no op in the reduced model',
+]
+
+OP = 'model.mesh3d_history'
 W = lbg.wnum
-TOL = Fraction(1, 10 ** 9)
+REL = Fraction(1, 10 ** 9)
+SLOTS = ('area', 'face_areas', 'face_normals')
+READS = ['area', 'face_areas', 'face_normals']
 
 
+# ------------------------------------------------------------------ wire <-> real
 def p3(p):
     return [W(p.x), W(p.y), W(p.z)]
+
+
+def fl(s):
+    return float(Fraction(s))
+
+
+def P(j):
+    return Point3D(fl(j[0]), fl(j[1]), fl(j[2]))
+
+
+def V(j):
+    return Vector3D(fl(j[0]), fl(j[1]), fl(j[2]))
 
 
 def state_wire(m):
@@ -45,37 +98,213 @@ def state_wire(m):
     return d
 
 
-def canon(d):
-    shape, nums = [('faces', d['faces']), ('nv', len(d['vertices']))], []
-    for v in d['vertices']:
-        nums.extend(Fraction(c) for c in v)
-    shape.append(('area', d['area'] is not None))
-    if d['area'] is not None:
-        nums.append(Fraction(d['area']))
-    fa = d['face_areas']
-    if fa is None:
-        shape.append(('fa', None))
-    elif 'inl' in fa:
-        shape.append(('fa', 'scalar'))
-        nums.append(Fraction(fa['inl']))
-    else:
-        shape.append(('fa', len(fa['inr'])))
-        nums.extend(Fraction(a) for a in fa['inr'])
-    fn = d['face_normals']
-    if fn is None:
-        shape.append(('fn', None))
-    elif 'inl' in fn:
-        shape.append(('fn', 'single'))
-        nums.extend(Fraction(c) for c in fn['inl'])
-    else:
-        shape.append(('fn', len(fn['inr'])))
-        for v in fn['inr']:
-            nums.extend(Fraction(c) for c in v)
-    return shape, nums
+def mesh_from_wire(d):
+    m = Mesh3D(tuple(P(v) for v in d['vertices']), tuple(tuple(f) for f in d['faces']))
+    if d.get('area') is not None:
+        m._area = fl(d['area'])
+    fa = d.get('face_areas')
+    if fa is not None:
+        m._face_areas = fl(fa['inl']) if 'inl' in fa else tuple(fl(a) for a in fa['inr'])
+    fn = d.get('face_normals')
+    if fn is not None:
+        m._face_normals = V(fn['inl']) if 'inl' in fn else tuple(V(v) for v in fn['inr'])
+    return m
 
 
+# ------------------------------------------------------------------ real side of a history
+def apply_real(m, w):
+    op = w.get('_real', w['op'])
+    if op.startswith('read_'):
+        getattr(m, op[5:])
+        return m
+    if op == 'duplicate':
+        return m.duplicate()
+    if op == 'move':
+        return m.move(V(w['v']))
+    if op == 'rotate_xy':
+        return m.rotate_xy(float.fromhex(w['_angle']), P(w['o']))
+    if op == 'rotate_z':       # Mesh3D.rotate about (0, 0, ±1): the model's rotate_xy(±angle)
+        sgn = w['_axis_sign']
+        return m.rotate(Vector3D(0, 0, sgn), sgn * float.fromhex(w['_angle']), P(w['o']))
+    if op == 'reflect':
+        return m.reflect(V(w['n']), P(w['o']))
+    if op == 'scale':
+        return m.scale(fl(w['k']), P(w['o']))
+    if op == 'scale_world':
+        k = fl(w['k'])
+        return m.scale(int(k) if w.get('_int') else k)
+    if op == 'remove_faces_only':
+        return m.remove_faces_only(list(w['pattern']))
+    raise ValueError('unknown op %r' % (op,))
+
+
+def real_history(m, ops, ties=False):
+    """-> list aligned with `ops`: state wire | {'err':'assert'} | {'raise': name} |
+    {'tie': True} (history cut) | None."""
+    if ties and normal_tie(m):
+        return [{'tie': True}] + [None] * (len(ops) - 1)
+    exp = []
+    for i, w in enumerate(ops):
+        try:
+            m2 = apply_real(m, w)
+            res = state_wire(m2)
+            m = m2
+        except AssertionError:
+            res = {'err': 'assert'}
+        except Exception as e:      # noqa: BLE001
+            res = {'raise': type(e).__name__}
+        if ties and not w['op'].startswith('read_') and normal_tie(m):
+            res = {'tie': True}
+        exp.append(res)
+        if 'tie' in res:
+            exp.extend([None] * (len(ops) - len(exp)))
+            break
+    return exp
+
+
+# ------------------------------------------------------------------ float ties
+def _cross(u, v):
+    return (u[1] * v[2] - u[2] * v[1], u[2] * v[0] - u[0] * v[2], u[0] * v[1] - u[1] * v[0])
+
+
+def _sub(a, b):
+    return (a[0] - b[0], a[1] - b[1], a[2] - b[2])
+
+
+def _sq(a):
+    return a[0] * a[0] + a[1] * a[1] + a[2] * a[2]
+
+
+def normal_tie(m):
+    """True when some face has an ill-conditioned normal (exact |n| <= 1e-6 L^2)."""
+    vs = [(Fraction(v.x), Fraction(v.y), Fraction(v.z)) for v in m._vertices]
+    for f in m._faces:
+        q = [vs[i] for i in f]
+        n = _cross(_sub(q[1], q[0]), _sub(q[2], q[0]))
+        parts = [n]
+        if len(q) == 4:
+            n2 = _cross(_sub(q[3], q[2]), _sub(q[0], q[2]))
+            parts.append(n2)
+            n = ((n[0] + n2[0]) / 2, (n[1] + n2[1]) / 2, (n[2] + n2[2]) / 2)
+        l2 = max(_sq(_sub(q[i], q[i - 1])) for i in range(len(q)))
+        for x in parts + [n]:
+            if _sq(x) * 10 ** 12 <= l2 * l2:
+                return True
+    return False
+
+
+# ------------------------------------------------------------------ comparison
+RANGE_BITS = 240
+
+
+def out_of_range(a):
+    """The driver evaluates `math.sqrt` on the exact rational argument by converting numerator
+    and denominator to doubles (Wire.ratToFloat); with vertex coordinates of more than ~250
+    bits the argument (degree 4 in the coordinates) leaves the double range and the model's
+    areas / normals are meaningless.  Such a history is cut at that step (counted in the
+    histogram `cut_driver_range`, it is neither an agreement nor a disagreement)."""
+    for v in a['vertices']:
+        for c in v:
+            f = Fraction(c)
+            if f.numerator.bit_length() > RANGE_BITS or f.denominator.bit_length() > RANGE_BITS:
+                return True
+    return False
+
+
+def slot_shape(d, k):
+    v = d.get(k)
+    if v is None:
+        return 'empty'
+    if k == 'area':
+        return 'filled'
+    if 'inl' in v:
+        return 'scalar' if k == 'face_areas' else 'single'
+    return 'tuple[%d]' % len(v['inr'])
+
+
+def slot_numbers(d, k):
+    v = d[k]
+    if k == 'area':
+        return [Fraction(v)]
+    if k == 'face_areas':
+        return [Fraction(v['inl'])] if 'inl' in v else [Fraction(a) for a in v['inr']]
+    if 'inl' in v:
+        return [Fraction(c) for c in v['inl']]
+    return [Fraction(c) for q in v['inr'] for c in q]
+
+
+def _kind(shape):
+    return shape.split('[')[0]
+
+
+def compare_states(a, e):
+    if [list(f) for f in a['faces']] != [list(f) for f in e['faces']]:
+        return 'faces differ', 'model %s real %s' % (a['faces'], e['faces'])
+    if len(a['vertices']) != len(e['vertices']):
+        return 'vertex count differs', 'model %d real %d' % (len(a['vertices']),
+                                                            len(e['vertices']))
+    ev = [Fraction(c) for v in e['vertices'] for c in v]
+    av = [Fraction(c) for v in a['vertices'] for c in v]
+    s = max([Fraction(1)] + [abs(c) for c in ev])
+    dv = max([abs(x - y) for x, y in zip(av, ev)] or [Fraction(0)])
+    if dv > REL * s:
+        return 'vertices differ', 'max |diff| %.3g' % float(dv)
+    for k in SLOTS:
+        sa, se = slot_shape(a, k), slot_shape(e, k)
+        if sa != se:
+            if _kind(sa) == _kind(se):
+                return 'slot %s: length differs' % k, 'model %s real %s' % (sa, se)
+            return 'slot %s: model %s, real %s' % (k, _kind(sa), _kind(se)), \
+                'model %s real %s' % (sa, se)
+    for k in SLOTS:
+        if e.get(k) is None:
+            continue
+        unit = Fraction(1) if k == 'face_normals' else s * s
+        for x, y in zip(slot_numbers(a, k), slot_numbers(e, k)):
+            if abs(x - y) > REL * max(unit, abs(y)):
+                return 'slot %s: value differs' % k, 'model %.17g real %.17g' % (
+                    float(x), float(y))
+    return None
+
+
+def compare_history(ops, val, exp):
+    """-> (n compared, tie?, None | (step index, what-key, detail))."""
+    n = 0
+    if len(val) != len(ops):
+        return 0, False, (0, 'answer length', 'model answered %d of %d ops' % (len(val), len(ops)))
+    for i, e in enumerate(exp):
+        if e is None:
+            continue
+        if 'tie' in e:
+            return n, True, None
+        a = val[i]
+        if 'vertices' in a and out_of_range(a):
+            return n, 'range', None
+        n += 1
+        if 'raise' in e:
+            return n, False, (i, 'raises %s' % e['raise'],
+                              'real raises %s, model %s' % (
+                                  e['raise'], 'raises' if 'err' in a else 'returns a state'))
+        if 'err' in a or 'err' in e:
+            if ('err' in a) != ('err' in e):
+                return n, False, (i, 'error mismatch: %s raises' % (
+                    'model' if 'err' in a else 'real'), 'AssertionError on one side only')
+            continue
+        bad = compare_states(a, e)
+        if bad:
+            return n, False, (i, bad[0], bad[1])
+    return n, False, None
+
+
+# ------------------------------------------------------------------ generators
 def lat(r, lo=-4, hi=4, den=2):
     return r.randint(lo * den, hi * den) / float(den)
+
+
+def coord(r, stream):
+    # 'float' stream: generic (non-lattice) doubles with 16 fractional bits — the exact model
+    # values must stay inside the driver's rational -> double range (see RANGE_BITS)
+    return lat(r) if stream == 'lattice' else round(r.uniform(-8, 8) * 65536) / 65536.0
 
 
 BASE = [
@@ -84,129 +313,391 @@ BASE = [
     ([(0, 0, 0), (1, 0, 0), (1, 1, 0), (0, 1, 0), (0, 0, 1), (1, 0, 1), (1, 1, 1), (0, 1, 1)],
      [(0, 3, 2, 1), (4, 5, 6, 7), (0, 1, 5, 4), (2, 3, 7, 6)]),
     ([(0, 0, 0), (4, 0, 1), (1, 1, 0), (0, 4, 2)], [(0, 1, 2, 3)]),        # non-planar quad
+    ([(0, 0, 0), (3, 0, 0), (0, 3, 0), (0, 0, 3)], [(0, 2, 1), (0, 1, 3), (1, 2, 3), (2, 0, 3)]),
+    ([(0, 0, 0), (2, 0, 0), (2, 2, 0), (0, 2, 0), (1, 1, 2)],
+     [(3, 2, 1, 0), (0, 1, 4), (1, 2, 4), (2, 3, 4), (3, 0, 4)]),          # pyramid
+    ([(0, 0, 1), (2, 0, 1), (1, 2, 1), (5, 5, 0), (6, 5, 2), (5, 7, 1)], [(0, 1, 2), (3, 4, 5)]),
+]
+
+POLYGONS = [
+    [(0, 0), (4, 0), (4, 4), (0, 4)],
+    [(0, 0), (4, 0), (4, 2), (2, 2), (2, 4), (0, 4)],                  # L shape
+    [(0, 0), (6, 0), (0, 6)],
+    [(0, 0), (2, 0), (2, 4), (0, 4)],
 ]
 
 
-def random_mesh(r):
-    if r.random() < 0.3:
-        # Face3D.mesh_grid seeds the scalar area and the single normal
-        x0, y0, z0 = lat(r), lat(r), lat(r)
-        w, h = r.choice([2.0, 4.0]), r.choice([2.0, 4.0])
-        f = Face3D([Point3D(x0, y0, z0), Point3D(x0 + w, y0, z0), Point3D(x0 + w, y0 + h, z0),
-                    Point3D(x0, y0 + h, z0)])
-        return f.mesh_grid(r.choice([1.0, 2.0]), r.choice([1.0, 2.0]),
-                           offset=r.choice([None, 0.5]), flip=r.random() < 0.3)
-    vs, fs = r.choice(BASE)
-    k = r.choice([1.0, 0.5, 2.0])
-    d = (lat(r), lat(r), lat(r))
-    return Mesh3D([Point3D(x * k + d[0], y * k + d[1], z * k + d[2]) for x, y, z in vs], fs)
+def random_plane(r, stream):
+    if stream == 'lattice':
+        n = r.choice([Vector3D(0, 0, 1), Vector3D(0, 0, -1), Vector3D(1, 0, 0),
+                      Vector3D(0, -1, 0)])
+        return Plane(n, Point3D(lat(r), lat(r), lat(r)))
+    while True:
+        n = Vector3D(r.gauss(0, 1), r.gauss(0, 1), r.gauss(0, 1))
+        if n.magnitude > 0.2:
+            break
+    return Plane(n.normalize(), Point3D(coord(r, stream), coord(r, stream), coord(r, stream)))
 
 
-READS = ['area', 'face_areas', 'face_normals']
+def random_mesh(r, stream, hist):
+    """-> (real mesh, source kind)."""
+    for _ in range(20):
+        kind = r.random()
+        try:
+            if kind < 0.38:
+                # Face3D.mesh_grid seeds the scalar area and the single normal
+                pl = random_plane(r, stream)
+                k = r.choice([1.0, 0.5, 2.0])
+                poly = r.choice(POLYGONS)
+                if r.random() < 0.3:
+                    poly = list(reversed(poly))
+                f = Face3D([pl.xy_to_xyz(Point2D(x * k, y * k)) for x, y in poly], pl)
+                if stream == 'lattice':
+                    xd, yd = r.choice([1.0, 2.0, 0.5]) * k, r.choice([1.0, 2.0, None])
+                    yd = yd if yd is None else yd * k
+                else:
+                    xd, yd = round(r.uniform(0.5, 2.2) * 64) / 64 * k, \
+                        round(r.uniform(0.5, 2.2) * 64) / 64 * k
+                return (f.mesh_grid(xd, yd, offset=r.choice([None, 0.5, 0]),
+                                    flip=r.random() < 0.3,
+                                    generate_centroids=r.random() < 0.5), 'Face3D.mesh_grid')
+            if kind < 0.48:
+                nx, ny = r.randint(1, 3), r.randint(1, 2)
+                m2 = Mesh2D.from_grid(Point2D(coord(r, stream), coord(r, stream)), nx, ny,
+                                      r.choice([0.5, 1.0, 2.0]), r.choice([0.5, 1.0]))
+                pl = random_plane(r, stream) if r.random() < 0.6 else None
+                return Mesh3D.from_mesh2d(m2, pl), 'from_mesh2d'
+            vs, fs = r.choice(BASE)
+            k = r.choice([1.0, 0.5, 2.0]) if stream == 'lattice' else \
+                round(r.uniform(0.4, 2.5) * 256) / 256.0
+            d = (coord(r, stream), coord(r, stream), coord(r, stream))
+            pts = [Point3D(x * k + d[0], y * k + d[1], z * k + d[2]) for x, y, z in vs]
+            fs2 = []
+            for f in fs:
+                s = r.randrange(len(f))
+                fs2.append(tuple(f[s:] + f[:s]))
+            if r.random() < 0.15:
+                fs2 = [tuple(reversed(f)) for f in fs2]
+            if kind < 0.58:
+                return (Mesh3D.from_face_vertices([[pts[i] for i in f] for f in fs2],
+                                                  r.random() < 0.5), 'from_face_vertices')
+            return Mesh3D(pts, fs2), 'explicit'
+        except AssertionError:
+            bump(hist['source'], '(factory assert, redrawn)')
+    return Mesh3D([Point3D(0, 0, 0), Point3D(1, 0, 0), Point3D(0, 1, 0)], [(0, 1, 2)]), 'explicit'
 
 
-def random_op(r, m):
+def random_op(r, m, stream):
     x = r.random()
+    c = lambda: coord(r, stream)     # noqa: E731
     if x < 0.35:
-        name = r.choice(READS)
-
-        def f(m, name=name):
-            getattr(m, name)
-            return m
-        return {'op': 'read_' + name}, f
+        return {'op': 'read_' + r.choice(READS)}
     if x < 0.43:
-        return {'op': 'duplicate'}, lambda m: m.duplicate()
-    if x < 0.53:
-        v = Vector3D(lat(r), lat(r), lat(r))
-        return {'op': 'move', 'v': p3(v)}, lambda m: m.move(v)
-    if x < 0.62:
-        ang = r.choice([r.randint(-4, 4) * math.pi / 2, r.uniform(-6, 6)])
-        o = Point3D(lat(r), lat(r), lat(r))
-        return ({'op': 'rotate_xy', 'c': W(math.cos(ang)), 's': W(math.sin(ang)), 'o': p3(o)},
-                lambda m: m.rotate_xy(ang, o))
-    if x < 0.70:
-        n = r.choice([Vector3D(1, 0, 0), Vector3D(0, 1, 0), Vector3D(0, 0, -1),
-                      Vector3D(0.6, 0.8, 0), Vector3D(0, -0.8, 0.6)])
-        o = Point3D(lat(r), lat(r), lat(r))
-        return {'op': 'reflect', 'n': p3(n), 'o': p3(o)}, lambda m: m.reflect(n, o)
+        return {'op': 'duplicate'}
+    if x < 0.52:
+        return {'op': 'move', 'v': p3(Vector3D(c(), c(), c()))}
+    if x < 0.63:
+        ang = r.randint(-4, 4) * math.pi / 2 if stream == 'lattice' else r.uniform(-6, 6)
+        w = {'op': 'rotate_xy', 'c': W(math.cos(ang)), 's': W(math.sin(ang)),
+             'o': p3(Point3D(c(), c(), c())), '_angle': float(ang).hex()}
+        if r.random() < 0.35:
+            w['_real'] = 'rotate_z'
+            w['_axis_sign'] = r.choice([1, -1])
+        return w
+    if x < 0.71:
+        if stream == 'lattice' or r.random() < 0.3:
+            n = r.choice([Vector3D(1, 0, 0), Vector3D(0, 1, 0), Vector3D(0, 0, -1),
+                          Vector3D(0.6, 0.8, 0), Vector3D(0, -0.8, 0.6)])
+        else:
+            n = random_plane(r, stream).n
+        return {'op': 'reflect', 'n': p3(n), 'o': p3(Point3D(c(), c(), c()))}
     if x < 0.80:
-        k = r.choice([2.0, 0.5, 3.0, -2.0, -0.5])
-        o = Point3D(lat(r), lat(r), lat(r))
-        return {'op': 'scale', 'k': W(k), 'o': p3(o)}, lambda m: m.scale(k, o)
+        k = r.choice([2.0, 0.5, 3.0, -2.0, -0.5]) if stream == 'lattice' else \
+            r.choice([-1, 1]) * round(r.uniform(0.3, 2.5) * 256) / 256.0
+        return {'op': 'scale', 'k': W(k), 'o': p3(Point3D(c(), c(), c()))}
     if x < 0.87:
-        k = r.choice([2.0, 0.5, 3.0, -1.0])
-        return {'op': 'scale_world', 'k': W(k)}, lambda m: m.scale(k)
-    n = len(m.faces)
+        k = r.choice([2.0, 0.5, 3.0, -1.0, 2]) if stream == 'lattice' else \
+            round(r.uniform(0.3, 2.5) * 256) / 256.0
+        w = {'op': 'scale_world', 'k': W(k)}
+        if isinstance(k, int):
+            w['_int'] = True
+        return w
+    n = len(m._faces)
     y = r.random()
     if y < 0.05:
         p = [True] * (n + 1)
-    elif y < 0.1:
+    elif y < 0.08:
+        p = [r.random() < 0.5 for _ in range(max(0, n - 1))]
+    elif y < 0.13:
         p = [False] * n
+    elif y < 0.18:
+        p = [True] * n
     else:
         p = [r.random() < 0.7 for _ in range(n)]
-    return {'op': 'remove_faces_only', 'pattern': p}, lambda m: m.remove_faces_only(p)
+    return {'op': 'remove_faces_only', 'pattern': p}
 
 
-def main(n_hist=500, max_len=8, seed=31):
-    r = random.Random(seed)
-    requests, expected, descr = [], [], []
-    stats = {'steps': 0, 'asserts': 0, 'ops': {}}
-    for h in range(n_hist):
-        m = random_mesh(r)
-        if r.random() < 0.3:
+def real_len(ops):
+    return len(ops)
+
+
+def bump(h, k, n=1):
+    h[k] = h.get(k, 0) + n
+
+
+def to_args(start, ops):
+    return [start['vertices'], start['faces'], {k: start[k] for k in SLOTS}, ops]
+
+
+def random_history(r, stream, hist, max_len=8):
+    m, src = random_mesh(r, stream, hist)
+    bump(hist['source'], src)
+    for _ in range(r.choice([0, 0, 0, 1, 2])):        # pre-history reads: warm cache
+        try:
             getattr(m, r.choice(READS))
-        s0 = state_wire(m)
-        ops, exp = [], []
-        for _ in range(r.randint(1, max_len)):
-            w, f = random_op(r, m)
-            ops.append(w)
-            stats['ops'][w['op']] = stats['ops'].get(w['op'], 0) + 1
-            try:
-                m = f(m)
-                exp.append(state_wire(m))
-            except AssertionError:
-                exp.append({'err': 'assert'})
-                stats['asserts'] += 1
-        requests.append(('model.mesh3d_history', [s0['vertices'], s0['faces'], s0, ops]))
-        expected.append(exp)
-        descr.append(ops)
-    answers = lbg.Driver().run(requests)
-    bad, maxd = 0, Fraction(0)
-    for h, ((ok, val), exp) in enumerate(zip(answers, expected)):
-        if not ok:
-            print('history', h, 'driver error', val)
-            bad += 1
+        except Exception:       # noqa: BLE001
+            pass
+    start = state_wire(m)
+    bump(hist['start_cache'], 'warm' if any(start[k] is not None for k in SLOTS) else 'cold')
+    ops = []
+    cur = mesh_from_wire(start)
+    for _ in range(r.randint(1, max_len)):
+        w = random_op(r, cur, stream)
+        try:
+            cur = apply_real(cur, w)
+        except Exception:       # noqa: BLE001
+            pass
+        ops.append(w)
+    return to_args(start, ops), real_history(m, ops, ties=True)
+
+
+def fixed_corpus():
+    out = []
+    hp = math.pi / 2
+    rot = {'op': 'rotate_xy', 'c': W(math.cos(hp)), 's': W(math.sin(hp)), 'o': ['1', '1', '0'],
+           '_angle': float(hp).hex()}
+    rotz = dict(rot, _real='rotate_z', _axis_sign=-1)
+    reads = [{'op': 'read_' + k} for k in READS]
+    box = lambda: Mesh3D([Point3D(*p) for p in BASE[2][0]], BASE[2][1])     # noqa: E731
+    face = Face3D([Point3D(0, 0, 2), Point3D(4, 0, 2), Point3D(4, 2, 2), Point3D(0, 2, 2)])
+    grid = lambda **kw: face.mesh_grid(1.0, 1.0, **kw)                      # noqa: E731
+    out.append((box(), reads + [{'op': 'duplicate'}] + list(reversed(reads))))
+    out.append((box(), [{'op': 'read_area'}, {'op': 'move', 'v': ['1', '2', '-1/2']},
+                        {'op': 'read_face_normals'}, rot, {'op': 'read_face_areas'}, rotz,
+                        {'op': 'reflect', 'n': ['0', '-4/5', '3/5'], 'o': ['0', '1', '0']},
+                        {'op': 'read_face_normals'}]))
+    out.append((grid(), [{'op': 'scale', 'k': '3', 'o': ['1', '1', '1']}, {'op': 'read_area'},
+                         {'op': 'scale_world', 'k': '-2'}, {'op': 'read_face_normals'},
+                         {'op': 'scale_world', 'k': '2', '_int': True},
+                         {'op': 'read_face_areas'}, {'op': 'duplicate'}]))
+    out.append((grid(flip=True, offset=0.5),
+                [{'op': 'remove_faces_only', 'pattern': [True, False] * 4},
+                 {'op': 'read_face_areas'},
+                 {'op': 'remove_faces_only', 'pattern': [True] * 3},        # too short
+                 {'op': 'remove_faces_only', 'pattern': [True] * 5},        # too long
+                 {'op': 'remove_faces_only', 'pattern': [False] * 4},       # empties the mesh
+                 {'op': 'remove_faces_only', 'pattern': [False, True, True, False]},
+                 {'op': 'read_area'}, {'op': 'move', 'v': ['0', '0', '1']},
+                 {'op': 'read_face_normals'}]))
+    out.append((grid(), [{'op': 'read_face_normals'}, {'op': 'duplicate'},
+                         {'op': 'remove_faces_only', 'pattern': [True] * 7 + [False]},
+                         {'op': 'read_face_normals'}, {'op': 'read_area'}]))
+    return out
+
+
+# ------------------------------------------------------------------ run
+def budget(ctx):
+    thorough = ctx.tier == 'thorough' or bool(getattr(ctx, 'broken', None))
+    wall = 200.0 if thorough else 13.0
+    t = time.time()
+    return thorough, min(t + wall, getattr(ctx, 'deadline', float('inf')) - 5), \
+        t + (285.0 if thorough else 16.0)
+
+
+def signature(ops, i, what):
+    return '%s|%s: %s' % (OP, ops[i].get('_real', ops[i]['op']), what)
+
+
+def nontrivial_steps(args, exp, limit):
+    """Among the first `limit` compared steps: those in which a memo value is in play."""
+    n = 0
+    prev_filled = any(args[2].get(k) is not None for k in SLOTS)
+    seen = 0
+    for w, e in zip(args[3], exp):
+        if e is None:
             continue
-        for i, (a, e) in enumerate(zip(val, exp)):
-            stats['steps'] += 1
-            if 'err' in a or 'err' in e:
-                if ('err' in a) != ('err' in e):
-                    print('history', h, 'step', i, descr[h][i]['op'], 'error mismatch')
-                    bad += 1
-                    break
+        if 'tie' in e or seen >= limit:
+            break
+        seen += 1
+        if 'err' in e or 'raise' in e:
+            n += 1
+            continue
+        filled = any(e.get(k) is not None for k in SLOTS)
+        if w['op'].startswith('read_'):
+            n += 1 if prev_filled else 0
+        else:
+            n += 1 if filled else 0
+        prev_filled = filled
+    return n
+
+
+def expected_of(args):
+    m = mesh_from_wire(dict(args[2], vertices=args[0], faces=args[1]))
+    return real_history(m, args[3], ties=True)
+
+
+def shrink(driver, args, sig, deadline):
+    """Drop single ops while the same disagreement remains (one driver batch per round)."""
+    for _ in range(4):
+        if time.time() > deadline:
+            break
+        ops = args[3]
+        cands = [args[:3] + [ops[:j] + ops[j + 1:]] for j in range(len(ops)) if len(ops) > 1]
+        if not cands:
+            break
+        exps = [expected_of(c) for c in cands]
+        answers = driver.run([(OP, c) for c in cands])
+        better = None
+        for c, e, (ok, val) in zip(cands, exps, answers):
+            if not ok:
                 continue
-            sa, na = canon(a)
-            se, ne = canon(e)
-            if sa != se:
-                print('history', h, 'step', i, descr[h][i]['op'], 'SHAPE mismatch', sa, se)
-                print('   ops', [o['op'] for o in descr[h][:i + 1]])
-                bad += 1
+            bad = compare_history(c[3], val, e)[2]
+            if bad and signature(c[3], bad[0], bad[1]) == sig:
+                better = c[:3] + [c[3][:bad[0] + 1]]
                 break
-            d = max([abs(x - y) for x, y in zip(na, ne)] or [Fraction(0)])
-            maxd = max(maxd, d)
-            if d > TOL:
-                print('history', h, 'step', i, descr[h][i]['op'], 'VALUE mismatch', float(d))
-                print('   ops', [o['op'] for o in descr[h][:i + 1]])
-                bad += 1
+        if better is None:
+            break
+        args = better
+    return args
+
+
+def make_disagreement(args, bad, seed):
+    i, what, detail = bad
+    ops = args[3]
+    return {'signature': signature(ops, i, what),
+            'what': 'after %s (step %d of %s): %s — %s' % (
+                ops[i].get('_real', ops[i]['op']), i,
+                [o.get('_real', o['op']) for o in ops[:i + 1]], what, detail),
+            'op': OP, 'args': args[:3] + [ops[:i + 1]], 'model': what, 'real': detail,
+            'seed': seed}
+
+
+def run(ctx, prop):
+    t0 = time.time()
+    thorough, stop, hard_stop = budget(ctx)
+    hist = {'source': {}, 'start_cache': {}, 'ops': {}, 'history_length': {}, 'stream': {},
+            'faces_at_start': {}, 'real_errors': {}, 'face_areas_kind': {},
+            'face_normals_kind': {}, 'filled_slots_per_state': {}, 'cut_driver_range': {}}
+    out = {'requests': 0, 'nontrivial': 0, 'disagreements': [], 'float_ties': 0,
+           'histograms': hist, 'samples': [],
+           'rule': 'request = one step of an operation history compared slot by slot; '
+                   'non-trivial = a read on a warm cache, a non-read op whose result carries '
+                   'a filled memo slot, or a step on which the real method raises'}
+    if prop not in PROPS:
+        return out
+    found = {}
+
+    def do_batch(cases, label):
+        if not cases:
+            return
+        answers = ctx.driver.run([(OP, a) for a, _ in cases])
+        for (args, exp), (ok, val) in zip(cases, answers):
+            ops = args[3]
+            bump(hist['history_length'], len(ops))
+            bump(hist['faces_at_start'], min(len(args[1]), 10))
+            for o in ops:
+                bump(hist['ops'], o.get('_real', o['op']))
+            if not ok:
+                bad, n, tie = (0, 'driver error', str(val)[:200]), 0, False
+            else:
+                n, tie, bad = compare_history(ops, val, exp)
+            out['requests'] += n
+            out['float_ties'] += 1 if tie is True else 0
+            if tie == 'range':
+                bump(hist['cut_driver_range'], real_len(ops))
+            out['nontrivial'] += nontrivial_steps(args, exp, n)
+            for e in exp:
+                if e is None or 'tie' in e:
+                    continue
+                if 'err' in e or 'raise' in e:
+                    bump(hist['real_errors'], e.get('err') or e.get('raise'))
+                else:
+                    bump(hist['face_areas_kind'], _kind(slot_shape(e, 'face_areas')))
+                    bump(hist['face_normals_kind'], _kind(slot_shape(e, 'face_normals')))
+                    bump(hist['filled_slots_per_state'],
+                         sum(1 for k in SLOTS if e.get(k) is not None))
+            if bad:
+                d = make_disagreement(args, bad, '%s/%s' % (ctx.seed, label))
+                if d['signature'] not in found:
+                    found[d['signature']] = d
+            elif len(out['samples']) < 3 and 2 <= len(ops) <= 3 and label != 'fixed':
+                out['samples'].append({'op': OP, 'args': args, 'agrees': True})
+
+    cases = []
+    for m, ops in fixed_corpus():
+        cases.append((to_args(state_wire(m), ops), real_history(m, ops, ties=True)))
+        bump(hist['source'], 'fixed corpus')
+    do_batch(cases, 'fixed')
+
+    r = random.Random('%s/corr.meshcache3d' % ctx.seed)
+    per_batch = 1500 if thorough else 380
+    rounds = 0
+    while time.time() < stop and (rounds < 1 or thorough) and rounds < 12:
+        cases = []
+        for _ in range(per_batch):
+            stream = 'lattice' if r.random() < 0.5 else 'float'
+            bump(hist['stream'], stream)
+            cases.append(random_history(r, stream, hist))
+            if time.time() > stop:
                 break
-    print('Mesh3D histories: %d  agreeing: %d  steps compared: %d  real AssertionErrors: %d  '
-          'max |diff| = %.3g' % (n_hist, n_hist - bad, stats['steps'], stats['asserts'],
-                                 float(maxd)))
-    print('op counts:', dict(sorted(stats['ops'].items())))
-    return bad
+        do_batch(cases, 'round%d' % rounds)
+        rounds += 1
+
+    for n, sig in enumerate(sorted(found)[:8]):
+        d = found[sig]
+        if n < 3 and time.time() < hard_stop:
+            try:
+                d['args'] = shrink(ctx.driver, d['args'], sig, hard_stop)
+            except Exception:       # noqa: BLE001 - shrinking is best effort
+                pass
+        out['disagreements'].append(d)
+    out['seconds'] = round(time.time() - t0, 1)
+    return out
+
+
+def replay(ctx, disagreement):
+    """Re-run one recorded disagreement on the current tree."""
+    args = disagreement['args']
+    exp = expected_of(args)
+    ok, val = ctx.driver.run([(OP, args)])[0]
+    if not ok:
+        bad = (0, 'driver error', str(val)[:200])
+    else:
+        bad = compare_history(args[3], val, exp)[2]
+    if not bad:
+        return None
+    return make_disagreement(args, bad, disagreement.get('seed'))
 
 
 if __name__ == '__main__':
-    n = int(sys.argv[1]) if len(sys.argv) > 1 else 500
-    sd = int(sys.argv[2]) if len(sys.argv) > 2 else 31
-    sys.exit(1 if main(n, 8, sd) else 0)
+    class Ctx(object):
+        pass
+    ctx = Ctx()
+    ctx.seed = int(sys.argv[1]) if len(sys.argv) > 1 else int(os.environ.get('VERIF_SEED', '0'))
+    ctx.tier = sys.argv[2] if len(sys.argv) > 2 else os.environ.get('VERIF_TIER', 'quick')
+    ctx.broken = []
+    ctx.driver = lbg.Driver()
+    ctx.deadline = time.time() + 3600
+    t = time.time()
+    res = run(ctx, PROPS[0])
+    print('%s seed %s %s: %d requests, %d non-trivial, %d float ties, %d disagreements, %.1f s' % (
+        os.path.basename(__file__), ctx.seed, ctx.tier, res['requests'], res['nontrivial'],
+        res['float_ties'], len(res['disagreements']), time.time() - t))
+    for k, v in sorted(res['histograms'].items()):
+        print('  %s: %s' % (k, dict(sorted(v.items(), key=lambda kv: str(kv[0])))))
+    for d in res['disagreements']:
+        print('DISAGREEMENT', d['signature'], '::', d['what'][:400])
+        again = replay(ctx, d)
+        print('   replay:', 'reproduced' if again else 'NOT reproduced',
+              '(%d ops)' % len(d['args'][3]))
+    sys.exit(1 if res['disagreements'] else 0)
